@@ -18,6 +18,7 @@ import (
 	hostsplugin "github.com/IrineSistiana/mosdns/v5/plugin/executable/hosts"
 	"github.com/IrineSistiana/mosdns/v5/plugin/executable/redirect"
 	"github.com/IrineSistiana/mosdns/v5/plugin/executable/sequence"
+	"github.com/IrineSistiana/mosdns/v5/plugin/matcher/qname"
 	"github.com/miekg/dns"
 
 	"verifharness/hx"
@@ -33,6 +34,7 @@ type menuEntry struct {
 var menu = []menuEntry{
 	{`^a\.`, true}, {`b$`, true}, {`a.b`, true}, {`\.a\.`, true}, {`A`, true}, {`^ab`, true},
 	{`b\.a$`, true}, {`(`, false}, {`[a`, false}, {`.`, true}, {`a:?\.`, true}, {`^a.`, true}, {`^b$`, true},
+	{`^[a-z.]+$`, true}, // 13: only lower-case letters and dots: notices a name that was not lower-cased
 }
 var menuRe []*regexp.Regexp
 
@@ -259,7 +261,7 @@ func question(name string) *dns.Msg {
 	return q
 }
 
-// runLoad: which = 0 raw Load/LoadFromTextReader, 1 domain_set, 2 hosts, 3 redirect.
+// runLoad: which = 0 raw Load/LoadFromTextReader, 1 domain_set, 2 hosts, 3 redirect, 4 qname matcher (base_domain).
 func runLoad(w *hx.Writer, id string, which int, dflt string, entries []string, text string, intended []irule, names []string) {
 	failed := false
 	var os_ []obs
@@ -298,6 +300,26 @@ func runLoad(w *hx.Writer, id string, which int, dflt string, entries []string, 
 			dm := ds.GetDomainMatcher()
 			for _, n := range names {
 				_, ok := dm.Match(n)
+				o := obs{ok: ok}
+				if ok {
+					o.v = []int{}
+				}
+				os_ = append(os_, o)
+			}
+		case 4:
+			// the qname matcher of sequences: quick setup string "exp exp ... &file"
+			arg := strings.Join(append(append([]string{}, entries...), "&"+writeFile(id, text)), " ")
+			qm, err := qname.QuickSetup(nil, arg)
+			if err != nil {
+				failed = true
+				return
+			}
+			for _, n := range names {
+				ok, err := qm.Match(context.Background(), query_context.NewContext(question(n)))
+				if err != nil {
+					os_ = append(os_, panicObs)
+					continue
+				}
 				o := obs{ok: ok}
 				if ok {
 					o.v = []int{}
@@ -375,17 +397,68 @@ func runLoad(w *hx.Writer, id string, which int, dflt string, entries []string, 
 var alphabet = []string{"a", "b", "ab"}
 var typeNames = []string{"", "full", "domain", "regexp", "keyword"}
 
+// edgeLabels: letters at the ends of the ranges a case test could get wrong, and
+// the bytes next to those ranges ('@' 'A'..'Z' '[' and '`' 'a'..'z' '{').
+var edgeLabels = []string{"z", "zz", "az", "za", "zb", "m", "y", "a@", "a`", "a[", "a{", "z@", "z[", "@", "`"}
+
+// mixCase flips the case of letters independently of each other; most often a single letter.
 func mixCase(r *hx.RNG, s string) string {
-	if !r.Chance(1, 4) {
+	var idx []int
+	for i := 0; i < len(s); i++ {
+		if s[i] >= 'a' && s[i] <= 'z' {
+			idx = append(idx, i)
+		}
+	}
+	if len(idx) == 0 {
 		return s
 	}
 	b := []byte(s)
-	for i, c := range b {
-		if c >= 'a' && c <= 'z' && r.Bool() {
-			b[i] = c - 32
+	switch c := r.Intn(20); {
+	case c < 12:
+		return s
+	case c < 16: // one letter; a boundary letter when there is one
+		var edge []int
+		for _, i := range idx {
+			if b[i] == 'a' || b[i] == 'z' {
+				edge = append(edge, i)
+			}
+		}
+		i := hx.Pick(r, idx)
+		if len(edge) > 0 && r.Bool() {
+			i = hx.Pick(r, edge)
+		}
+		b[i] -= 32
+	case c < 17: // every occurrence of one letter
+		l := b[hx.Pick(r, idx)]
+		for _, i := range idx {
+			if b[i] == l {
+				b[i] -= 32
+			}
+		}
+	case c < 19:
+		for _, i := range idx {
+			if r.Bool() {
+				b[i] -= 32
+			}
+		}
+	default:
+		for _, i := range idx {
+			b[i] -= 32
 		}
 	}
 	return string(b)
+}
+
+// confuse swaps the bytes a wrong range test would identify: '@'/'`' and '['/'{'.
+func confuse(s string) string {
+	return strings.NewReplacer("@", "`", "`", "@", "[", "{", "{", "[").Replace(s)
+}
+
+func pickLabel(r *hx.RNG) string {
+	if r.Chance(1, 7) {
+		return hx.Pick(r, edgeLabels)
+	}
+	return hx.Pick(r, alphabet)
 }
 
 func genLabels(r *hx.RNG, maxDepth int) []string {
@@ -402,7 +475,7 @@ func genLabels(r *hx.RNG, maxDepth int) []string {
 	}
 	ls := make([]string, d)
 	for i := range ls {
-		ls[i] = hx.Pick(r, alphabet)
+		ls[i] = pickLabel(r)
 	}
 	return ls
 }
@@ -428,7 +501,7 @@ func genPattern(r *hx.RNG, kind int, maxDepth int, malformed bool) string {
 			return hx.Pick(r, []string{"", ".", "..", "a..b"})
 		}
 		if r.Chance(1, 3) {
-			return mixCase(r, hx.Pick(r, []string{"a", "b", "ab", "ba", "b.a", ".a", "a.", "b.", ".ab.", "a.b", "bb", "aa", "a:b"}))
+			return mixCase(r, hx.Pick(r, []string{"a", "b", "ab", "ba", "b.a", ".a", "a.", "b.", ".ab.", "a.b", "bb", "aa", "a:b", "z", "az", "zz", "z.a", "@", "a`", "["}))
 		}
 		return genPlainName(r, 2)
 	}
@@ -477,13 +550,16 @@ func meaningOf(dflt, s string, v []int) *irule {
 }
 
 // genRule returns the text of a rule.
-func genRule(r *hx.RNG, dflt string, maxDepth int, malformed bool) string {
+func genRule(r *hx.RNG, dflt string, onlyKind, maxDepth int, malformed bool) string {
 	kind := r.Range(1, 4)
 	if r.Chance(1, 2) {
 		kind = 2
 	}
+	if onlyKind != 0 {
+		kind = onlyKind
+	}
 	prefix := typeNames[kind] + ":"
-	if k := kindOfDefault(dflt); k != 0 && r.Chance(1, 3) {
+	if k := kindOfDefault(dflt); k != 0 && (onlyKind == 0 || onlyKind == k) && r.Chance(1, 3) {
 		kind = k
 		prefix = hx.Pick(r, []string{"", "", ":"})
 	}
@@ -524,7 +600,8 @@ func genDefault(r *hx.RNG, malformed bool) string {
 	return "domain"
 }
 
-func genRuleSet(r *hx.RNG, dflt string, maxRules, maxDepth int, malformed bool) ruleSet {
+// genRuleSet: onlyKind != 0 makes every rule a rule of that one type.
+func genRuleSet(r *hx.RNG, dflt string, onlyKind, maxRules, maxDepth int, malformed bool) ruleSet {
 	rs := ruleSet{dflt: dflt}
 	n := r.Range(1, maxRules)
 	for i := 0; i < n; i++ {
@@ -550,8 +627,10 @@ func genRuleSet(r *hx.RNG, dflt string, maxRules, maxDepth int, malformed bool) 
 					}
 				case 2:
 					if k == 2 || k == 1 {
-						pat = hx.Pick(r, alphabet) + "." + pat
+						pat = pickLabel(r) + "." + pat
 					}
+				case 3:
+					pat = mixCase(r, strings.ToLower(pat))
 				}
 			}
 			if ok {
@@ -560,7 +639,7 @@ func genRuleSet(r *hx.RNG, dflt string, maxRules, maxDepth int, malformed bool) 
 				s = pat
 			}
 		} else {
-			s = genRule(r, dflt, maxDepth, malformed)
+			s = genRule(r, dflt, onlyKind, maxDepth, malformed)
 		}
 		v := []int{r.Range(1, 9)}
 		rs.rules = append(rs.rules, rule{s: s, v: v})
@@ -608,7 +687,13 @@ func genNames(r *hx.RNG, rs []irule, k, maxDepth int, malformed bool) []string {
 		if n == "" && !malformed {
 			continue
 		}
+		if r.Bool() {
+			n = strings.ToLower(n)
+		}
 		n = mixCase(r, n)
+		if strings.ContainsAny(n, "@`[{") && r.Chance(1, 3) {
+			n = confuse(n)
+		}
 		if r.Chance(1, 5) && !strings.HasSuffix(n, ".") {
 			n += "."
 		}
@@ -625,15 +710,24 @@ func decorate(r *hx.RNG, s string) string {
 }
 
 func genLoad(w *hx.Writer, id string, r *hx.RNG, maxRules, maxDepth int) {
-	which := r.Intn(4)
+	which := hx.Pick(r, []int{0, 1, 1, 2, 3, 4, 4})
 	dflt := "full"
 	switch which {
 	case 0:
 		dflt = hx.Pick(r, []string{"", "domain", "domain", "full", "keyword"})
-	case 1:
+	case 1, 4:
 		dflt = "domain"
 	}
-	rs := genRuleSet(r, dflt, maxRules, maxDepth, r.Chance(1, 8))
+	// the providers keep or drop a loaded set as a whole: sets made of one rule type only
+	onlyKind := 0
+	if r.Chance(1, 2) {
+		onlyKind = r.Range(1, 4)
+	}
+	malformed := r.Chance(1, 8)
+	if onlyKind != 0 {
+		malformed = r.Chance(1, 16)
+	}
+	rs := genRuleSet(r, dflt, onlyKind, maxRules, maxDepth, malformed)
 	var entries, lines []string
 	var intended []irule
 	stopped := false // something the loader must refuse has been written
@@ -669,7 +763,7 @@ func genLoad(w *hx.Writer, id string, r *hx.RNG, maxRules, maxDepth int) {
 			if r.Chance(1, 12) {
 				var bad string
 				switch which {
-				case 0, 1:
+				case 0, 1, 4:
 					bad = hx.Pick(r, []string{"a b", "domain:a full:b", "bogus:a", "regexp:(", "a\tb"})
 				case 2:
 					bad = hx.Pick(r, []string{"bogus:a 10.0.0.1", "regexp:( 10.0.0.1"})
@@ -804,6 +898,55 @@ func main() {
 			runSingle(w, id, kind, rs, c.names)
 		}
 	}
+	// case sweep: for every letter, rule and name differ only in the case of that one letter,
+	// in both directions, for every rule type; then the bytes next to the letter ranges,
+	// which must NOT be identified ('@' with '`', '[' with '{').
+	type pair struct{ lo, up string }
+	var pairs []pair
+	for c := byte('a'); c <= 'z'; c++ {
+		pairs = append(pairs, pair{string(c), string(c - 32)})
+	}
+	pairs = append(pairs, pair{"`", "@"}, pair{"{", "["})
+	for i, p := range pairs {
+		for dir := 0; dir < 2; dir++ {
+			ru, na := p.lo, p.up // rules in lower case, names with the one letter in upper case
+			if dir == 1 {
+				ru, na = p.up, p.lo
+			}
+			id := fmt.Sprintf("cat:case:%d:%d", i, dir)
+			if o.Want(id) {
+				rules := []rule{R("full:f"+ru+".t", 1), R("domain:d"+ru+".t", 2), R("keyword:k"+ru+"k", 4)}
+				names := []string{"f" + na + ".t", "s.d" + na + ".t.", "d" + na + ".t", "qk" + na + "k.u", "f" + ru + ".t", "k" + ru + "k"}
+				runMix(w, id, "", rules, names)
+			}
+			id = fmt.Sprintf("cat:case1:%d:%d", i, dir)
+			if o.Want(id) {
+				k := 1 + (i+dir)%2*3 // full and keyword matchers alternately
+				runSingle(w, id, k, []rule{R("w"+ru+"w", 1)}, []string{"w" + na + "w", "w" + ru + "w."})
+			}
+			id = fmt.Sprintf("cat:case2:%d:%d", i, dir)
+			if o.Want(id) {
+				runSingle(w, id, 2, []rule{R(ru+"w.u"+ru, 2)}, []string{na + "w.u" + ru, "s." + ru + "w.u" + na + "."})
+			}
+		}
+		// the regexp sees the normalised (lower-cased) name
+		id := fmt.Sprintf("cat:case:re:%d", i)
+		if o.Want(id) {
+			runMix(w, id, "", []rule{R("regexp:^[a-z.]+$", 3)}, []string{"r" + p.up + ".t", "r" + p.lo + ".t."})
+		}
+		// through the hosts loader (default type full) and the domain_set provider
+		id = fmt.Sprintf("cat:case:hosts:%d", i)
+		if o.Want(id) && i%3 == 0 {
+			runLoad(w, id, 2, "full", []string{"h" + p.up + ".t 10.0.0.1"}, "domain:e"+p.lo+".t 10.0.0.2\n",
+				[]irule{{1, "h" + p.up + ".t", []int{1}}, {2, "e" + p.lo + ".t", []int{2}}},
+				[]string{"h" + p.lo + ".t.", "x.e" + p.up + ".t."})
+		}
+		id = fmt.Sprintf("cat:case:set:%d", i)
+		if o.Want(id) && i%3 == 1 {
+			runLoad(w, id, 1, "domain", []string{"keyword:k" + p.up}, "", []irule{{4, "k" + p.up, []int{}}}, []string{"ak" + p.lo + ".t", "k" + p.up})
+		}
+	}
+
 	// loader catalogue
 	loadCat := []struct {
 		which    int
@@ -830,6 +973,64 @@ func main() {
 		{3, "full", []string{"a.b"}, "", nil, nil},
 		{3, "full", nil, "a.b v1\na v1 v2\n", nil, nil},
 	}
+	// the providers (domain_set = 1, qname matcher = 4) keep or drop a loaded set as a whole:
+	// sets made of one rule type only, through exps only and through the file only
+	for _, which := range []int{1, 4} {
+		for _, c := range []struct {
+			rule  string
+			ir    irule
+			names []string
+		}{
+			{"full:a.b", irule{1, "a.b", []int{}}, []string{"a.b", "A.B.", "b.a.b", "b"}},
+			{"a.b", irule{2, "a.b", []int{}}, []string{"a.b", "b.a.b", "aa.b", "b"}},
+			{"domain:B.A.", irule{2, "B.A.", []int{}}, []string{"b.a", "a.b.a", "ab.a"}},
+			{"regexp:^ab", irule{3, "^ab", []int{}}, []string{"ab.a", "a.ab", "AB"}},
+			{"keyword:b", irule{4, "b", []int{}}, []string{"ab.a", "a.B.", "a", "b"}},
+			{"keyword:Z.", irule{4, "Z.", []int{}}, []string{"az.a", "a.Z", "a"}},
+		} {
+			loadCat = append(loadCat, struct {
+				which    int
+				dflt     string
+				entries  []string
+				text     string
+				intended []irule
+				names    []string
+			}{which, "domain", []string{c.rule}, "", []irule{c.ir}, c.names})
+			loadCat = append(loadCat, struct {
+				which    int
+				dflt     string
+				entries  []string
+				text     string
+				intended []irule
+				names    []string
+			}{which, "domain", nil, "# only this\n " + c.rule + " # x\n", []irule{c.ir}, c.names})
+			loadCat = append(loadCat, struct {
+				which    int
+				dflt     string
+				entries  []string
+				text     string
+				intended []irule
+				names    []string
+			}{which, "domain", []string{c.rule}, c.rule + "\n" + c.rule, []irule{c.ir, c.ir, c.ir}, c.names})
+		}
+		// nothing loaded at all, and the documented oddity: a set whose only rule is the root domain
+		loadCat = append(loadCat, struct {
+			which    int
+			dflt     string
+			entries  []string
+			text     string
+			intended []irule
+			names    []string
+		}{which, "domain", nil, "", nil, []string{"a"}})
+		loadCat = append(loadCat, struct {
+			which    int
+			dflt     string
+			entries  []string
+			text     string
+			intended []irule
+			names    []string
+		}{which, "domain", []string{"domain:."}, "", []irule{{2, ".", []int{}}}, []string{"a", "b.a"}})
+	}
 	for i, c := range loadCat {
 		id := fmt.Sprintf("cat:load:%d", i)
 		if o.Want(id) {
@@ -846,10 +1047,10 @@ func main() {
 		r := hx.NewRNG(o.Seed, id)
 		switch c := r.Intn(20); {
 		case c < 11: // mix matcher, well-formed
-			rs := genRuleSet(r, genDefault(r, false), maxRules, maxDepth, false)
+			rs := genRuleSet(r, genDefault(r, false), 0, maxRules, maxDepth, false)
 			runMix(w, id, rs.dflt, rs.rules, genNames(r, rs.intended, r.Range(2, 5), maxDepth, false))
 		case c < 13: // mix matcher, malformed stream
-			rs := genRuleSet(r, genDefault(r, true), maxRules, maxDepth, true)
+			rs := genRuleSet(r, genDefault(r, true), 0, maxRules, maxDepth, true)
 			runMix(w, id, rs.dflt, rs.rules, genNames(r, rs.intended, r.Range(2, 5), maxDepth, true))
 		case c < 16: // one matcher on its own
 			kind := r.Range(1, 4)
